@@ -962,6 +962,12 @@ namespace link_layer {
                 this->connection_requested( details(), connection_data_, static_cast< radio_t& >( *this ) );
                 this->template handle_connection_events< link_layer< Server, ScheduledRadio, Options... > >();
             }
+            else
+            {
+                // connect request with an invalid channel map, hop increment or invalid timing parameters:
+                // ignore the request and keep on advertising
+                this->handle_adv_timeout();
+            }
         }
     }
 
